@@ -99,6 +99,9 @@ def run(ctx):
             for (xb, fxb) in variants_b:
                 if not (kit.finite(xa.magnitude) and kit.finite(xb.magnitude)) or xa.magnitude == 0 or xb.magnitude == 0:
                     continue
+                if orc.dynamic_range(xa.unit) + orc.dynamic_range(xb.unit) + 80 > 280:
+                    ctx.count("skipped_partial_products_may_leave_float_range")
+                    continue
                 if not (1e-40 < abs(xa.magnitude) < 1e40 and 1e-40 < abs(xb.magnitude) < 1e40):
                     ctx.count("skipped_operand_magnitude_out_of_range")  # float under/overflow is not a unit question
                     continue
